@@ -302,6 +302,50 @@ theorem tie_reprExprs : GoZero.Extracted.C15.reprExprs = [
   "ret:return lang.Repr(node)",
   "call:lang.Repr(node)"] := rfl
 
+/-! ### the users named by the property's anchors: how they build the ring and dispatch a key -/
+
+/-- cache.New: fatal without a positive total weight; ONE node → the node itself, no ring; otherwise
+`NewConsistentHash()` and, in configuration order, `AddWithWeight(NewNode(…), node.Weight)` with the raw
+configured weight; every method of cacheCluster dispatches its key with `cc.dispatcher.Get(key)`; the ring
+is never modified afterwards (no Add / Remove call on a dispatcher anywhere in the file). -/
+theorem tie_cacheUsers : GoZero.Extracted.C15.cacheUsers = [
+  "New:if:len(c) == 0 || TotalWeights(c) <= 0",
+  "New:if:len(c) == 1",
+  "New:hash.NewConsistentHash()",
+  "New:range:_,node:=c",
+  "New:cn := NewNode(redis.MustNewRedis(node.RedisConf), barrier, st, errNotFound, opts...)",
+  "New:dispatcher.AddWithWeight(cn, node.Weight)",
+  "DelCtx:cc.dispatcher.Get(key)",
+  "DelCtx:cc.dispatcher.Get(key)",
+  "GetCtx:cc.dispatcher.Get(key)",
+  "SetCtx:cc.dispatcher.Get(key)",
+  "SetWithExpireCtx:cc.dispatcher.Get(key)",
+  "TakeCtx:cc.dispatcher.Get(key)",
+  "TakeWithExpireCtx:cc.dispatcher.Get(key)"] := rfl
+
+/-- kv.NewStore: always a ring (one node too), `AddWithWeight(redis.MustNewRedis(…), node.Weight)` in
+configuration order; `getRedis` dispatches with `cs.dispatcher.Get(key)`. -/
+theorem tie_kvUsers : GoZero.Extracted.C15.kvUsers = [
+  "NewStore:if:len(c) == 0 || cache.TotalWeights(c) <= 0",
+  "NewStore:hash.NewConsistentHash()",
+  "NewStore:range:_,node:=c",
+  "NewStore:cn := redis.MustNewRedis(node.RedisConf)",
+  "NewStore:dispatcher.AddWithWeight(cn, node.Weight)",
+  "getRedis:cs.dispatcher.Get(key)"] := rfl
+
+/-- the repr of both node types is the redis address (`lang.Repr` calls `String()`) -/
+theorem tie_userReprs : GoZero.Extracted.C15.cacheNodeStringExprs = ["ret:return c.rds.Addr"] ∧
+    GoZero.Extracted.C15.redisStringExprs = ["ret:return s.Addr"] := ⟨rfl, rfl⟩
+
+/-- TotalWeights clamps negative weights in ITS copy only: AddWithWeight receives the raw weight -/
+theorem tie_totalWeightsShape : GoZero.Extracted.C15.totalWeightsShape = [
+  "range c {",
+  "if node.Weight < 0 {",
+  "store node.Weight",
+  "}",
+  "}",
+  "return"] := rfl
+
 /-- the default hash is murmur3 `Sum64` (Lean side: `Murmur.sum64`) -/
 theorem tie_hashExprs : GoZero.Extracted.C15.hashExprs = [
   "ret:return murmur3.Sum64(data)",
